@@ -143,6 +143,9 @@ func ledgerExec1(op string) string {
 		}
 		ann := annBlock(&b, headHeader(n))
 		err = n.v.ExecuteSignedBlock(b)
+		if err == nil {
+			snapAddrIndex(n)
+		}
 		return ann + " R" + errCode(err) + " " + digest(n)
 	case "injf", "inju":
 		n := getNode(f[1])
@@ -239,6 +242,26 @@ func ledgerExec1(op string) string {
 					return err
 				}
 				return dbutil.Delete(tx, blockdb.UnspentMetaBkt, []byte("addr_index_height"))
+			case "addrindex-lag":
+				// the address index as it was a few blocks ago, with its (older) height: what a node is left with
+				// when blocks were applied without maintaining the index; start-up must bring it up to the head
+				snaps := idxSnaps[n.name]
+				if len(snaps) == 0 {
+					return nil
+				}
+				old := snaps[0]
+				if err := dbutil.Reset(tx, blockdb.UnspentPoolAddrIndexBkt); err != nil {
+					return err
+				}
+				for k, v := range old.rows {
+					if err := dbutil.PutBucketValue(tx, blockdb.UnspentPoolAddrIndexBkt, []byte(k), v); err != nil {
+						return err
+					}
+				}
+				if old.height == nil {
+					return dbutil.Delete(tx, blockdb.UnspentMetaBkt, []byte("addr_index_height"))
+				}
+				return dbutil.PutBucketValue(tx, blockdb.UnspentMetaBkt, []byte("addr_index_height"), old.height)
 			}
 			return nil
 		}); err != nil {
@@ -270,6 +293,36 @@ func ledgerExec1(op string) string {
 		return r
 	}
 	panic("harness: unknown op " + f[0])
+}
+
+// the address-index bucket and its height after each of the last few accepted blocks of a node (oldest first)
+type idxSnap struct {
+	rows   map[string][]byte
+	height []byte
+}
+
+var idxSnaps = map[string][]idxSnap{}
+
+func snapAddrIndex(n *node) {
+	sn := idxSnap{rows: map[string][]byte{}}
+	if err := n.db.View("verif idx snapshot", func(tx *dbutil.Tx) error {
+		if err := dbutil.ForEach(tx, blockdb.UnspentPoolAddrIndexBkt, func(k, v []byte) error {
+			sn.rows[string(k)] = append([]byte{}, v...)
+			return nil
+		}); err != nil {
+			return err
+		}
+		h, err := dbutil.GetBucketValue(tx, blockdb.UnspentMetaBkt, []byte("addr_index_height"))
+		sn.height = h
+		return err
+	}); err != nil {
+		return
+	}
+	l := append(idxSnaps[n.name], sn)
+	if len(l) > 4 {
+		l = l[len(l)-4:]
+	}
+	idxSnaps[n.name] = l
 }
 
 // checkDBCopy runs the node's own integrity verification on a copy of its database file
